@@ -376,6 +376,10 @@ def r205(ctx) -> None:
                 R.check(isinstance(w, ast.AsyncWith), f, c, key,
                         'an async context manager lock is used in a plain '
                         '`with`')
+            elif isinstance(par, ast.Call) and call_name(par) == \
+                    'enter_async_context':
+                R.ok(f, c, key, 'entered through an AsyncExitStack (released '
+                     'when the stack exits)')
             elif isinstance(par, ast.Return):
                 R.ok(f, c, key, 'factory: returned to the caller')
             elif isinstance(par, ast.Assign):
